@@ -70,6 +70,9 @@ func (i instruction) String() string {
 	if i.instrType.inputRegCnt > 1 {
 		as = append(as, rs2.regNum(i.value).String())
 	}
+	if i.instrType.rs1Imm {
+		as = append(as, fmt.Sprintf("%d", uint8(rs1.regNum(i.value))))
+	}
 
 	if imm, ok := i.instrType.immediate.parseValue(i.value); ok {
 		immStr := fmt.Sprintf("%d", imm)
